@@ -23,13 +23,13 @@ from harness.props import c19_redirect
 from harness.props.c19_facts import facts  # noqa: F401  (translator entry point)
 
 PROP = "C19"
-DRIVER_MODULES = ["PsutilModel.Model.C19Gen", "PsutilModel.Spec.C19"]
+DRIVER_MODULES = ["PsutilModel.Model.C19Gen", "PsutilModel.Spec.C19", "PsutilModel.Spec.C19Cores"]
 NEEDS_EXT = True
 TRUSTED = [
     "C19 redirect layer (harness/props/c19_redirect.py): glob.glob / os.listdir / os.sysconf / os.path.exists and open() as seen by psutil._pslinux / psutil._common are served from a temp root; an 'unreadable' file is an existing file whose open() raises PermissionError",
     "C19 number syntax: float()/int() are modelled on optional blanks, optional sign, decimal digits, optional fraction (what the kernel prints); exponents, inf/nan, '_' separators and non-ASCII digits/blanks are outside the model and outside the generators",
     "C19 floats: the model computes exact rationals; the implementation's doubles are accepted within 1e-9 relative (secsleft: +-1 when the exact quotient is within 1e-9 of an integer; cpuinfo-derived MHz: 0.0011 absolute, int() of a double)",
-    "C19 kernel formats: /proc/stat and /proc/cpuinfo renderers in Spec/C19.lean are transcriptions of fs/proc/stat.c and arch/x86/kernel/cpu/proc.c (fields psutil reads), not verified against the kernel",
+    "C19 kernel formats: /proc/stat and /proc/cpuinfo renderers in Spec/C19.lean are transcriptions of fs/proc/stat.c and arch/x86/kernel/cpu/proc.c (fields psutil reads), the cpulist renderer in Spec/C19Cores.lean of the `%*pbl` bitmap format (Documentation/admin-guide/cputopology.rst: core_cpus_list); none is verified against the kernel",
 ]
 ASSUMPTIONS = [
     "power-supply, hwmon and thermal names are ASCII; text files contain no \\x1c-\\x1f, U+0085, U+00A0 or other non-ASCII blanks (str.strip vs the byte-level model)",
@@ -37,9 +37,9 @@ ASSUMPTIONS = [
     "the coretemp platform glob is modelled as found (its entries never yield a reading); layouts with coretemp files that are not also under /sys/class/hwmon do not exist on real kernels",
 ]
 MANIFEST = {
-    "level_text": "Machine-checked Lean 4 proofs over an executable model of the Linux sensors/battery/cpu_freq/cpu_count/cpu_stats/boot_time code for EVERY abstract tree: the hwmon walker equals the declarative per-sensor view and never fails (C19_missing_reading_skipped_never_fails, C19_temp_scaling), thermal zones are used only when hwmon lists nothing (C19_fallback_iff), zone thresholds are independent of the set-iteration order for every permutation (C19_zone_thresholds, with a proved counterexample for the code as found: conversions inside the loop), Fahrenheit and back-fill laws (C19_fahrenheit, C19_backfill, with a proved counterexample for the truthiness test), battery percent/plugged/secsleft/first-battery/None rules (C19_battery_refines and corollaries), cpu_freq kHz->MHz scaling, column means and None for no CPU for both module variants, cpu_count/cpu_stats/boot_time round trips through kernel-format renderers. Tied to the code by translator facts (caught exception classes, placement of the /1000 conversions relative to the trip-point loop, constants, file-name alternatives, name filter, enum values) feeding the proof obligation cfg_good, and by a differential run of the real front ends over redirected trees.",
+    "level_text": "Machine-checked Lean 4 proofs over an executable model of the Linux sensors/battery/cpu_freq/cpu_count/cpu_stats/boot_time code for EVERY abstract tree: the hwmon walker equals the declarative per-sensor view and never fails (C19_missing_reading_skipped_never_fails, C19_temp_scaling), thermal zones influence the result exactly when hwmon lists nothing (C19_fallback_iff, with C19_zones_ignored_when_hwmon_lists / C19_fallback_to_zones), zone thresholds are independent of the set-iteration order for every permutation (C19_zone_thresholds, with a proved counterexample for the code as found: conversions inside the loop), Fahrenheit and back-fill laws (C19_fahrenheit, C19_backfill, with a proved counterexample for the truthiness test), battery percent/plugged/secsleft/first-battery/None rules (C19_battery_refines and corollaries; clause by clause in C19_plugged_rules, C19_alternatives_rules, C19_secsleft_rules, end to end in C19_battery_kernel), cpu_freq kHz->MHz scaling, column means and None for no CPU for both module variants, cpu_count(logical=True) over its three sources (C19_cpu_count_logical_refines) and cpu_stats/boot_time as round trips through kernel-format renderers of /proc/cpuinfo and /proc/stat (text level), cpu_count(logical=False) = number of distinct sibling lists of the topology files under either file name, for any assignment of any number of CPUs to cores printed in the kernel's cpulist format (C19_cpu_count_cores_topology, C19_cpu_count_cores_kernel; the format is proved injective), else the package sum of a kernel-format /proc/cpuinfo, None when 0 (C19_cpu_count_cores_cpuinfo, C19_cpu_count_cores_none, C19_cpu_count_cores_refines). Tied to the code by translator facts (caught exception classes, placement of the /1000 conversions relative to the trip-point loop, constants, file-name alternatives and their order, name filter, enum values) feeding the proof obligation cfg_good, and by a differential run of the real front ends over redirected trees whose text files are the bytes printed by the Lean renderers.",
     "level_note": "Trusted: Lean kernel + {propext, Classical.choice, Quot.sound}; the translator; the redirect layer and correspondence harness; Python number syntax restricted to the kernel's notation; doubles vs exact rationals within the stated tolerances.",
-    "technique": "Lean 4 proofs (case analysis, list induction, permutation invariance) over a model on abstract sysfs trees + translator-fed proof obligation + differential correspondence through a path-redirect layer with explicit set-order control",
+    "technique": "Lean 4 proofs (case analysis, list induction, permutation invariance, render->parse round trips of /proc/stat, /proc/cpuinfo and the cpulist format) over a model on abstract sysfs trees + translator-fed proof obligation + differential correspondence through a path-redirect layer with explicit set-order control and exhaustive small sub-domains",
     "design_ref": "DESIGN.md §5 C19",
 }
 
@@ -435,9 +435,66 @@ def gen_stat(rng, ncpu=None, allow_raw=True):
                     "softirq": rng.randrange(big), "softirq_rest": [rng.randrange(100) for _ in range(rng.randrange(0, 5))]}}
 
 
+def gen_core_of(rng, n=None):
+    """assignment of n logical CPUs to cores (the way real machines number them, and arbitrary ones)"""
+    if n is None:
+        n = rng.choice([1, 2, 4, 8, 12, rng.randrange(1, 33), rng.randrange(1, 65)])
+    style = rng.choice(["no_smt", "smt_adjacent", "smt_split", "smt4", "hybrid", "random", "one_core"])
+    if style == "no_smt":
+        return list(range(n))
+    if style == "smt_adjacent":                      # cpu0,cpu1 → core 0; cpu2,cpu3 → core 1 …   "0-1"
+        return [i // 2 for i in range(n)]
+    if style == "smt_split":                         # cpu i and cpu i + n/2 share a core            "0,4"
+        h = max(1, n // 2)
+        return [i % h for i in range(n)]
+    if style == "smt4":
+        return [i // 4 for i in range(n)]
+    if style == "hybrid":                            # P-cores with 2 threads, then E-cores with 1
+        k = rng.randrange(0, n + 1)
+        return [i // 2 for i in range(k)] + [1000 + i for i in range(n - k)]
+    if style == "one_core":
+        return [7] * n
+    m = rng.randrange(1, n + 1)
+    return [rng.randrange(m) for _ in range(n)]
+
+
+def gen_packages(rng):
+    """kernel-format cpuinfo of a multi-package machine: every block of package p shows `cpu cores : c[p]`
+    (now and then one block disagrees: the last block of the package is the one that counts)"""
+    npk = rng.randrange(1, 5)
+    ids = rng.sample(range(0, 9), npk)
+    blocks = []
+    for pid in ids:
+        c = rng.choice([1, 2, 4, 6, 8, 16, rng.randrange(1, 65)])
+        for _ in range(rng.choice([1, 1, 2, 2, c if c <= 6 else 3])):
+            blocks.append({"physical_id": pid, "cores": c})
+    if rng.random() < 0.5:
+        rng.shuffle(blocks)                          # interleaved packages
+    if blocks and rng.random() < 0.15:
+        blocks[rng.randrange(len(blocks))]["cores"] = rng.randrange(0, 9)
+    return {"blocks": [dict(b, processor=i, mhz_int=rng.choice([800, 2400, 3600]), mhz_milli=rng.choice([0, 5, 999]))
+                       for i, b in enumerate(blocks)]}
+
+
 def gen_cpucount(rng, fam):
     case = {"fn": "cpucount", "family": fam, "logical": fam in ("sysconf", "cpuinfo_procs", "stat_rows", "zero"),
             "sysconf": None, "cpuinfo": gen_cpuinfo(rng), "stat": gen_stat(rng), "core": [], "sib": []}
+    if fam == "packages":
+        case["cpuinfo"] = gen_packages(rng)
+        if rng.random() < 0.2:                       # a deprecated-name directory listing that is empty: still fallback
+            case["sib"] = []
+    elif fam == "kernel_topology":
+        core_of = gen_core_of(rng)
+        where = rng.choice(["core", "sib", "both"])
+        if where == "core":
+            case["core"] = {"core_of": core_of}
+        elif where == "sib":
+            case["sib"] = {"core_of": core_of}
+        else:                                        # both names present: the new one is the one consulted
+            case["core"] = {"core_of": core_of}
+            case["sib"] = {"core_of": gen_core_of(rng, len(core_of))}
+        case["cpuinfo"] = gen_packages(rng)          # must be ignored
+        return case
     if fam == "sysconf":
         case["sysconf"] = rng.choice([1, 2, 16, 0, -1, rng.randrange(1, 300)])
     elif fam == "stat_rows":
@@ -446,13 +503,13 @@ def gen_cpucount(rng, fam):
         case["cpuinfo"] = {"blocks": []}
         case["stat"] = rng.choice([{"rec": dict(gen_stat(rng, 0, False)["rec"])}, hx(b"cpu  1 2 3\n")])
     elif fam == "topology":
-        lists = [b"0-1\n", b"2-3\n", b"0,4\n", b"1\n", b"0-1", b" 2-3 \n"]
+        lists = [b"0-1\n", b"2-3\n", b"0,4\n", b"1\n", b"0-1", b" 2-3 \n", b"", b"\n", b"0-1\n\n", b"0-3,8-11\n", b"0,1\n"]
         key = rng.choice(["core", "sib", "both"])
-        n = rng.randrange(1, 6)
+        n = rng.randrange(1, 9)
         if key in ("core", "both"):
             case["core"] = [rng.choice([hx(rng.choice(lists))] * 9 + [False]) for _ in range(n)]
         if key in ("sib", "both"):
-            case["sib"] = [hx(rng.choice(lists)) for _ in range(n)]
+            case["sib"] = [rng.choice([hx(rng.choice(lists))] * 12 + [False]) for _ in range(rng.randrange(1, 9))]
     return case
 
 
@@ -507,6 +564,9 @@ def render_requests(case):
     st = case.get("stat")
     if isinstance(st, dict):
         out.append(("stat", {"op": "render", "what": "stat", "rec": st["rec"]}))
+    for key in ("core", "sib"):
+        if isinstance(case.get(key), dict):
+            out.append((key, {"op": "render", "what": "topology", "files": case[key]}))
     return out
 
 
@@ -534,7 +594,7 @@ class Runner:
             for (i, key, _), o in zip(reqs, outs):
                 if "ok" not in o:
                     raise RuntimeError("driver could not render %s: %s" % (key, o))
-                rendered[i][key] = bytes.fromhex(o["ok"])
+                rendered[i][key] = o["ok"] if isinstance(o["ok"], list) else bytes.fromhex(o["ok"])
         return rendered
 
     def file_bytes(self, case, key, rendered):
@@ -555,7 +615,9 @@ class Runner:
         if fn == "cpufreq":
             return I.run_cpufreq(case, self.file_bytes(case, "cpuinfo", rendered))
         if fn == "cpucount":
-            return I.run_cpucount(case, self.file_bytes(case, "cpuinfo", rendered), self.file_bytes(case, "stat", rendered))
+            # kernel-format topology: the files are the bytes the Lean renderer (Spec.kernelTopology cpuList) printed
+            c2 = dict(case, **{k: rendered[k] for k in ("core", "sib") if isinstance(case.get(k), dict)})
+            return I.run_cpucount(c2, self.file_bytes(case, "cpuinfo", rendered), self.file_bytes(case, "stat", rendered))
         if fn == "cpustats":
             return I.run_cpustats(self.file_bytes(case, "stat", rendered))
         if fn == "boottime":
@@ -680,6 +742,21 @@ def generic_features(case, impl):
         f.add("percpu" if case["percpu"] else "mean")
     if fn == "cpucount":
         f.add("logical" if case["logical"] else "cores")
+        if not case["logical"]:
+            core, sib = case.get("core"), case.get("sib")
+            src = "core_cpus_list" if core else ("thread_siblings_list" if sib else "cpuinfo_packages")
+            f.add("cores_source_" + src)
+            used = core if core else sib
+            if isinstance(used, dict):
+                f.add("cores_kernel_cpulist")
+                if len(set(used["core_of"])) < len(used["core_of"]):
+                    f.add("cores_smt_siblings")
+            if core and sib:
+                f.add("cores_both_names")
+            if src == "cpuinfo_packages" and isinstance(case.get("cpuinfo"), dict):
+                ids = [b["physical_id"] for b in case["cpuinfo"]["blocks"]]
+                if len(set(ids)) > 1:
+                    f.add("cores_multi_package")
     return f
 
 
@@ -768,6 +845,19 @@ def exhaustive_battery(quick):
                 yield {"fn": "battery", "family": "exhaustive", "dir": True, "supplies": sup}
 
 
+def exhaustive_topology(maxn):
+    """every assignment of n <= maxn logical CPUs to core ids < n, under the new and the deprecated file name;
+    the cpuinfo next to it describes a 7-core package (a wrong fallback would show)"""
+    ci = {"blocks": [{"processor": 0, "mhz_int": 2400, "mhz_milli": 0, "physical_id": 0, "cores": 7}]}
+    for n in range(1, maxn + 1):
+        for core_of in itertools.product(range(n), repeat=n):
+            for key in ("core", "sib"):
+                case = {"fn": "cpucount", "family": "exhaustive_topology", "logical": False, "sysconf": None,
+                        "cpuinfo": ci, "stat": None, "core": [], "sib": []}
+                case[key] = {"core_of": list(core_of)}
+                yield case
+
+
 # ------------------------------------------------------------------------------ correspondence
 
 CORPUS = [
@@ -797,7 +887,8 @@ def gen_case(rng, i):
         return gen_cpufreq(rng, ["plain", "info_match", "offline", "percpu_dirs", "both_dirs", "gaps", "freq_junk",
                                  "cpuinfo_variant", "cpuinfo_variant"][(i // 20 * 3 + slot) % 9])
     if slot < 19:
-        return gen_cpucount(rng, ["sysconf", "cpuinfo_procs", "stat_rows", "zero", "topology", "packages"][(i // 20 * 2 + slot) % 6])
+        return gen_cpucount(rng, ["sysconf", "cpuinfo_procs", "stat_rows", "zero", "topology", "packages",
+                                  "kernel_topology", "packages", "topology", "kernel_topology"][(i // 20 * 2 + slot) % 10])
     return gen_stats(rng, ["cpustats", "boottime"][(i // 20) % 2])
 
 
@@ -832,26 +923,36 @@ def correspond(ctx, res):
     try:
         res.rule = ("abstract sysfs/procfs trees from clause-directed families (PRNG from VERIF_SEED) for the 8 "
                     "functions, plus exhaustive sweeps (every iteration order of ≤3 trip points over a 5-letter "
-                    "alphabet; every presence pattern of the 8 battery value files × mains × status), plus zone "
+                    "alphabet; every presence pattern of the 8 battery value files × mains × status; every "
+                    "assignment of ≤4 CPUs to cores under both topology file names), plus zone "
                     "cases re-run under other PYTHONHASHSEED values; non-trivial = the case exercises a named "
                     "clause feature (missing/unreadable/non-numeric file, fallback, nesting, exception, None "
                     "result, UNKNOWN/UNLIMITED, variant, …); distinct = distinct trees")
         cases = list(CORPUS)
         n = ctx.n(1200, 50000)
         cases += [gen_case(ctx.rng, i) for i in range(n)]
+        # dedicated batches for the text-level / topology parts (cheap cases, otherwise 1-2 slots in 20)
+        for k in range(ctx.n(180, 6000)):
+            cases.append(gen_cpucount(ctx.rng, ("kernel_topology", "packages", "topology")[k % 3]))
+        for k in range(ctx.n(90, 3000)):
+            cases.append(gen_cpucount(ctx.rng, ("cpuinfo_procs", "stat_rows", "zero")[k % 3]))
+        for k in range(ctx.n(80, 2000)):
+            cases.append(gen_stats(ctx.rng, ("cpustats", "boottime")[k % 2]))
         quick = ctx.tier == "quick"
         ex_z = [zone_case_with_order(t) for t in exhaustive_zone_orders(3 if quick else 4)]
         ex_b = list(exhaustive_battery(quick))
+        ex_t = list(exhaustive_topology(4 if quick else 5))
         res.extra["native_cpufreq_variant"] = "sysfs" if runner.impl.native_variant else "cpuinfo"
         CH = 3000
-        allc = cases + ex_z + ex_b
+        allc = cases + ex_z + ex_b + ex_t
         for a in range(0, len(allc), CH):
             for c, io, mo, sp in runner.run(allc[a:a + CH]):
                 record(res, c, io, mo, sp, c.get("family", "gen"))
         res.exhaustive = ("all %d iteration orders of <=%d trip points over {critical, high, passive, unreadable type, "
                           "critical with junk temp} (high/critical unique), all %d battery presence patterns "
-                          "(8 value files x mains x status); the random families are samples"
-                          % (len(ex_z), 3 if quick else 4, len(ex_b)))
+                          "(8 value files x mains x status), all %d assignments of <=%d logical CPUs to cores x "
+                          "{core_cpus_list, thread_siblings_list} in the kernel's cpulist format; the random families "
+                          "are samples" % (len(ex_z), 3 if quick else 4, len(ex_b), len(ex_t), 4 if quick else 5))
         res.extra["other_variant_reached"] = (not runner.impl.native_variant) in runner.impl.variants
         # other hash seeds
         zone_cases = [c for c in cases if c["fn"] == "temps" and c["zones"]][: (40 if quick else 400)]
@@ -870,6 +971,8 @@ def search(ctx, res, broken):
         directed = [zone_case_with_order(t) for t in exhaustive_zone_orders(3)]
         directed += list(CORPUS)
         directed += [gen_temps(ctx.rng, f) for f in ("zero_thr", "multi_trip", "missing", "nonnumeric_thr") for _ in range(50)]
+        directed += list(exhaustive_topology(3))
+        directed += [gen_cpucount(ctx.rng, f) for f in ("kernel_topology", "packages", "topology") for _ in range(40)]
         directed += [gen_case(ctx.rng, i) for i in range(ctx.n(300, 3000))]
         for c, io, mo, sp in runner.run(directed):
             record(res, c, io, mo, sp, "search")
@@ -933,8 +1036,20 @@ def _shrink_candidates(case):
                 yield dict(case, cpuinfo={"blocks": ci["blocks"][:i] + ci["blocks"][i + 1:]})
     elif fn == "cpucount":
         for key in ("core", "sib"):
-            for i in range(len(case[key])):
-                yield dict(case, **{key: case[key][:i] + case[key][i + 1:]})
+            v = case[key]
+            if isinstance(v, dict):
+                co = v["core_of"]
+                for i in range(len(co)):
+                    yield dict(case, **{key: {"core_of": co[:i] + co[i + 1:]}})
+                if key == "sib" and case["core"]:
+                    yield dict(case, sib=[])
+            else:
+                for i in range(len(v)):
+                    yield dict(case, **{key: v[:i] + v[i + 1:]})
+        ci = case.get("cpuinfo")
+        if isinstance(ci, dict) and not case["logical"]:
+            for i in range(len(ci["blocks"])):
+                yield dict(case, cpuinfo={"blocks": ci["blocks"][:i] + ci["blocks"][i + 1:]})
 
 
 def shrink(ctx, d):
